@@ -1,9 +1,9 @@
 #!/bin/bash
-# tools/seed_eval.sh <ID> <out-dir> <X> [check IDs...]  — confirm a sub-agent mutant, store it under seeded/, run checks against it.
-ID="$1"; O="$2"; X="$3"; shift 3
+# tools/seed_eval.sh <ID> <out-dir> <X> <Y> [check IDs...]  — confirm a sub-agent's change X (A|B), store it as seeded/<ID>-<Y>, run checks against it.
+ID="$1"; O="$2"; X="$3"; Y="$4"; shift 4
 cd /verif
 log=$(tools/confirm_mutant.sh "$O" "$X" 2>&1)
-echo "$log" | grep -E "^---|test result|PATCH|panicked|demo exit|PASS|FAIL" | head -14
-D=seeded/$ID-$X; mkdir -p $D
-cp /tmp/cm/current.patch $D/patch.diff; cp "$O/${X}_demo.rs" $D/demo.rs 2>/dev/null; cp "$O/${X}_demo.py" $D/demo.py 2>/dev/null; cp "$O/${X}_meta.json" $D/agent_meta.json
+echo "$log" | grep -E "^---|test result|PATCH|panicked|demo exit|PASS|FAIL" | head -16
+D=seeded/$ID-$Y; mkdir -p $D
+cp ${CM:-/tmp/cm}/current.patch $D/patch.diff; cp "$O/${X}_demo.rs" $D/demo.rs 2>/dev/null; cp "$O/${X}_demo.py" $D/demo.py 2>/dev/null; cp "$O/${X}_demo.sh" $D/demo.sh 2>/dev/null; cp "$O/${X}_meta.json" $D/agent_meta.json
 for c in "$@"; do tools/mutant.sh /verif/$D/patch.diff $c; done
